@@ -51,7 +51,6 @@ import (
 	"encoding/json"
 	"errors"
 	"fmt"
-	"io"
 	"os"
 	"os/exec"
 	"path/filepath"
@@ -489,9 +488,7 @@ func vsRunCase(c *vsCase, scratch string) (lines []string) {
 			lines = append(lines, fmt.Sprintf("%d restarted alive", i))
 			continue
 		}
-		if _, err := fmt.Fprintln(p.toChild, op); err != nil {
-			// the child is already gone
-		}
+		_, _ = fmt.Fprintln(p.toChild, op) // a write error means the child is already gone: seen below as EOF
 		l, ok, hang := p.read(90 * time.Second)
 		if hang {
 			return fail(fmt.Sprintf("op %d hangs", i))
@@ -609,5 +606,4 @@ func TestVerifService(t *testing.T) {
 	}
 	w.Flush()
 	f.Close()
-	_ = io.Discard
 }
